@@ -775,5 +775,5 @@ def parse_iso(value):
                         )
                     )
         return None
-    except (ValueError, TypeError):
+    except (ValueError, TypeError, OverflowError, OSError):
         return None
